@@ -75,6 +75,8 @@ def spec_for(chain, upto, ondisk, tag, dd=None, cls=None):
         spec = {"id": tag * 100 + i, "own": [[k, d] for k, d, _ in chain[i]], "parent": spec, "ondisk": ondisk[i]}
         if cls and cls[i]:
             spec["cl"] = 1
+        if ondisk[i] and tag % 2 == 0:
+            spec["reassign"] = True          # the staged partition is built by assigning keys more than once
         if dd and dd[i] and not ondisk[i]:
             spec["dd"] = True
     return spec
